@@ -572,6 +572,80 @@ def implementation_limit(name, text):
     return digits > 9 or (name in ('xs:float', 'xs:double') and False)
 
 
+# ------------------------------------------------------------------ (4) pattern facets (reference: Python re on a small dialect)
+XWS = ' \t\n\r'
+PATTERNS = ['[a-z0-9]+( [a-z0-9]+)*', '[0-9]+', '[a-z ]*', 'a.*', '.{1,3}', '[^ ]+', '( )?a( )?']
+PAT_TEXTS = ['a', 'a b', 'a  b', ' a b', 'a\tb', 'a b ', '12', ' 12 ', '1 2', 'ab1', '', ' ', 'a', ' a ', 'abc d', 'A', 'a\nb']
+
+
+def xml_collapse(t):
+    return ' '.join(x for x in re.split('[ \t\n\r]+', t) if x)
+
+
+def xml_replace(t):
+    return re.sub('[\t\n\r]', ' ', t)
+
+
+def pattern_reference(kind, pattern, text):
+    """validity of `text` for restriction(kind, pattern): the pattern is matched on the text normalised as the
+    (first matching member) type prescribes"""
+    def norm(k, t):
+        return {'xs:string': t, 'xs:normalizedString': xml_replace(t), 'xs:token': xml_collapse(t), 'xs:int': xml_collapse(t)}[k]
+    def member_ok(k, t):
+        if k == 'xs:int':
+            m = re.fullmatch('[+-]?[0-9]+', xml_collapse(t))
+            return m is not None and -2 ** 31 <= int(xml_collapse(t)) <= 2 ** 31 - 1
+        return True
+    members = kind if isinstance(kind, list) else [kind]
+    for k in members:
+        if member_ok(k, text):
+            return re.fullmatch(pattern, norm(k, text)) is not None
+    return False
+
+
+def subject_pattern(case):
+    import xmlschema
+    kind, pattern = case['kind'], case['pattern']
+    if isinstance(kind, list):
+        base = '<xs:simpleType name="U"><xs:union memberTypes="%s"/></xs:simpleType>' % ' '.join(kind)
+        bname = 'U'
+    else:
+        base, bname = '', kind
+    xsd = ('<xs:schema xmlns:xs="http://www.w3.org/2001/XMLSchema">%s<xs:simpleType name="P"><xs:restriction base="%s">'
+           '<xs:pattern value="%s"/></xs:restriction></xs:simpleType></xs:schema>' % (base, bname, pattern))
+    cls = xmlschema.XMLSchema11 if case['version'] == '1.1' else xmlschema.XMLSchema10
+    ty = cls(xsd).types['P']
+    out = []
+    for t in case['texts']:
+        try:
+            out.append(bool(ty.is_valid(t)))
+        except Exception as e:  # noqa
+            out.append('EXC ' + common.exc_class(e))
+    return out
+
+
+def check_patterns(ctx):
+    cases = []
+    kinds = ['xs:string', 'xs:normalizedString', 'xs:token', 'xs:int', ['xs:int', 'xs:string'],
+             ['xs:int', 'xs:normalizedString'], ['xs:int', 'xs:token']]
+    for version in ('1.0', '1.1'):
+        for kind in kinds:
+            for p in PATTERNS:
+                cases.append({'kind': kind, 'pattern': p, 'version': version, 'texts': PAT_TEXTS})
+    impl = common.pool_map(subject_pattern, cases)
+    for c, o in zip(cases, impl):
+        if isinstance(o, dict):
+            ctx.violation('pattern subject failed: %s' % o.get('harness_exception'), {'kind': 'pattern', 'case': c}, no_input=True)
+            continue
+        for t, v in zip(c['texts'], o):
+            want = pattern_reference(c['kind'], c['pattern'], t)
+            ctx.count(('pat', json.dumps(c['kind']), c['pattern'], c['version'], t), nontrivial=len(t) > 0)
+            if v != want:
+                ctx.violation('restriction(%s, pattern=%r) (XSD %s): text %r is %s, the pattern on the normalised text says %s'
+                              % (c['kind'], c['pattern'], c['version'], t, v, want),
+                              {'kind': 'pattern', 'case': dict(c, texts=[t]), 'text': t})
+
+
 def gen_roundtrip(ctx):
     rng = ctx.rng
     cases = []
@@ -595,14 +669,17 @@ def run(ctx):
                 '(type, version, text)')
     evaluate(ctx, cases)
     check_roundtrip(ctx, gen_roundtrip(ctx))
+    check_patterns(ctx)
     ctx.assumptions = ['value spaces of float/double/duration/dateTime/g* /binary/anyURI/QName are not modelled: lexical validity '
                        '(reference regular expressions) and the round trip only',
-                       'pattern facets are not modelled (the regex translation is elementpath\'s)',
+                       'pattern facets are checked against Python re on a small dialect (reference in the harness, not proved)',
                        'values with more than 9 digits in a date/time/duration field may be refused as an implementation limit']
 
 
 def replay(ctx, case):
-    if case.get('kind') == 'roundtrip':
+    if case.get('kind') == 'pattern':
+        check_patterns(ctx)
+    elif case.get('kind') == 'roundtrip':
         check_roundtrip(ctx, [case['case']])
     else:
         c = case['case']
